@@ -17,6 +17,7 @@ RULE = (
     "signal loop the waiting gate and waiters ran once per production (counts and values = sequential do-while). "
     "Non-trivial: >= 1 wait check observed; distinct = canonical program shape / (template, parameters)."
     " Also a lagging waiter: the producer re-emits in every iteration while the waiter's data input changes every second iteration (both list orders, limits 2-7)."
+    ' Also: histories of runs on one cache of loops whose waiting gate is cache=True (decisions served from the cache), judged on the delivered NodeStart/NodeEnd events.'
 )
 ASSUMPTIONS = [
     "production = the producer's function returning (call log exit); step membership from the get_ready_nodes tap",
